@@ -524,6 +524,24 @@ fn run(ctx: &mut Ctx) {
         let qs = [gate("A", &[], &[], &[Q::F(0), Q::F(1)]), gate("A", &[], &[], &[Q::F(0), Q::F(2)]), gate("A", &[], &[], &[Q::F(1), Q::F(1)]),
                   gate("A", &[], &[], &[Q::F(0), Q::P(0)]), gate("A", &[], &[], &[Q::F(0), Q::V("z")]), gate("A", &[D], &[], &[Q::F(0), Q::F(1)])];
         gate_case(ctx, &w, &hist, &qs);
+        // NON-ADJACENT redefinition combined with a tie: A(0,q) ; A(q,1) [same precedence for `A 0 1`] ; A(0,q) again.
+        // In place: the redefinition stays at position 0, so the later definition A(q,1) still wins the tie.
+        let redefinition = [
+            CalSpec { body: 0, ..cal("A", &[], &[], &[Q::F(0), Q::V("q")]) },
+            CalSpec { body: 1, ..cal("A", &[], &[], &[Q::V("q"), Q::F(1)]) },
+            CalSpec { body: 2, ..cal("A", &[], &[], &[Q::F(0), Q::V("q")]) },
+        ];
+        let hist: Vec<Op<CalSpec>> = redefinition.iter().cloned().map(Op::Ins).collect();
+        gate_case(ctx, &w, &hist, &[gate("A", &[], &[], &[Q::F(0), Q::F(1)]), gate("A", &[], &[], &[Q::F(0), Q::F(2)])]);
+        prog_gate_case(ctx, &w, &redefinition, &gate("A", &[], &[], &[Q::F(0), Q::F(1)]));
+        let mredefinition = [
+            MCalSpec { name: None, qubit: Q::F(0), target: Some("addr"), body: 0 },
+            MCalSpec { name: None, qubit: Q::F(0), target: Some("other"), body: 1 },
+            MCalSpec { name: None, qubit: Q::F(0), target: Some("addr"), body: 2 },
+        ];
+        let mhist: Vec<Op<MCalSpec>> = mredefinition.iter().cloned().map(Op::Ins).collect();
+        meas_case(ctx, &w, &mhist, &[MeasSpec { name: None, qubit: Q::F(0), target: Some(("ro", 0)) }]);
+        prog_meas_case(ctx, &w, &mredefinition, &MeasSpec { name: None, qubit: Q::F(0), target: Some(("ro", 0)) });
         // signatures compare raw expressions: pi/2 and 1.5707963267948966 are different signatures but match alike
         let hist = number_bodies(&[cal("A", &[], &[1], &[Q::F(0)]), cal("A", &[], &[2], &[Q::F(0)]), cal("A", &[], &[1], &[Q::F(0)]),
                                    cal("A", &[], &[9], &[Q::F(0)]), cal("A", &[], &[3], &[Q::F(0)])]);
